@@ -17,7 +17,9 @@ type Gate struct {
 func (g *Gate) VrtReady(op OpKind, t *Thread) bool { return g.open }
 
 //go:norace
-func (g *Gate) VrtDescribe() string { return "harness gate (opened only after the call under test returned)" }
+func (g *Gate) VrtDescribe() string {
+	return "harness gate (opened only after the call under test returned)"
+}
 
 //go:norace
 func (g *Gate) IsOpen() bool { return g.open }
